@@ -574,6 +574,104 @@ def _tendon_attrs(rng, P, tags):
 
 
 # ------------------------------------------------------------------------------------------------------------------
+# capsule-capsule workload: clipped segment-segment configurations
+def segment_segment(a0, a1, b0, b1):
+    """Exact closest points of two segments (Ericson, Real-Time Collision Detection 5.1.9) -> (pa, pb, s, t)."""
+    d1, d2, r = a1 - a0, b1 - b0, a0 - b0
+    a, e, f = d1 @ d1, d2 @ d2, d2 @ r
+    c, b = d1 @ r, d1 @ d2
+    den = a * e - b * b
+    s = np.clip((b * f - c * e) / den, 0.0, 1.0) if den > 1e-12 else 0.0
+    t = (b * s + f) / e
+    if t < 0.0:
+        t, s = 0.0, np.clip(-c / a, 0.0, 1.0)
+    elif t > 1.0:
+        t, s = 1.0, np.clip((b - c) / a, 0.0, 1.0)
+    return a0 + s * d1, b0 + t * d2, float(s), float(t)
+
+
+def _clip_only_gap(a0, a1, b0, b1):
+    """distance of the pair obtained by clipping the line-line solution to both segments independently, minus the true
+    segment-segment distance: > 0 iff the closest points of the infinite lines fall outside a segment in a way that matters"""
+    da, db = a1 - a0, b1 - b0
+    la, lb = np.linalg.norm(da), np.linalg.norm(db)
+    da, db = da / la, db / lb
+    am, bm = 0.5 * (a0 + a1), 0.5 * (b0 + b1)
+    tr = am - bm
+    ab = da @ db
+    den = 1 - ab * ab
+    if den < 1e-9:
+        return 0.0
+    ta = (-(da @ tr) + ab * (db @ tr)) / den
+    tb = db @ tr + ta * ab
+    pa = am + da * np.clip(ta, -la / 2, la / 2)
+    pb = bm + db * np.clip(tb, -lb / 2, lb / 2)
+    qa, qb, _, _ = segment_segment(a0, a1, b0, b1)
+    return float(np.linalg.norm(pa - pb) - np.linalg.norm(qa - qb))
+
+
+def gen_capcap(rng, integrator=None):
+    """Four free capsules (two pairs, 2 m apart). States come from capcap_states()."""
+    integ = integrator or str(rng.choice(["Euler", "implicitfast"]))
+    cone = str(rng.choice(["pyramidal", "elliptic"]))
+    solver = str(rng.choice(["Newton", "CG"], p=[0.7, 0.3]))
+    jac = str(rng.choice(["dense", "sparse"]))
+    tags = ["capcap", "contact", "int:" + integ, "cone:" + cone, "solver:" + solver, "jac:" + jac, "geom:capsule", "jnt:free"]
+    X = ['<mujoco model="capcap">',
+         '<option timestep="0.002" integrator="%s" cone="%s" solver="%s" jacobian="%s" iterations="%d" ls_iterations="50" '
+         'tolerance="1e-12" ls_tolerance="1e-6" gravity="0 0 -9.81"/>' % (integ, cone, solver, jac, 100 if solver == "Newton" else 400),
+         '<default><geom solref="0.02 1" solimp="0.9 0.95 0.001 0.5 2"/></default>', "<worldbody>"]
+    for i in range(4):
+        X.append('<body name="b%d" pos="%s"><joint name="j%d" type="free"/><geom name="g%d" type="capsule" size="%s" condim="%d" '
+                 'friction="%s" density="%s"/></body>'
+                 % (i, _f([2.0 * (i // 2), 0.5 * (i % 2), 1.0]), i, i, _f([rng.uniform(0.03, 0.07), rng.uniform(0.12, 0.3)]),
+                    rng.choice([3, 3, 4, 6] if cone == "elliptic" else [1, 3, 4, 6]),
+                    _f([rng.uniform(0.3, 1.2), rng.uniform(0.001, 0.01), rng.uniform(0.0001, 0.001)]), _f(rng.uniform(300, 2000))))
+    X += ["</worldbody>", "</mujoco>"]
+    return "\n".join(X), sorted(tags)
+
+
+def capcap_states(R, rng, m, d, nstates):
+    """States in which each pair of capsules penetrates by 2..25 mm in a CLIPPED configuration: the closest points of the two
+    axis LINES lie outside at least one segment, so that the clip-then-refine logic of the narrow phase decides the contact
+    (end cap against side, end cap against end cap, crossing lines whose segments do not cross), never near-parallel."""
+    mj = R.mujoco
+    out = []
+    for _ in range(nstates):
+        mj.mj_resetData(m, d)
+        for p in range(2):
+            ga, gb = 2 * p, 2 * p + 1
+            ra, ha = m.geom_size[ga][:2]
+            rb, hb = m.geom_size[gb][:2]
+            ca = np.array([2.0 * p, 0.0, 1.0]) + rng.uniform(-0.2, 0.2, 3)
+            qa = _quat(rng)
+            for _try in range(20000):
+                qb = _quat(rng)
+                cb = ca + rng.normal(size=3) * (ha + hb) * 0.6
+                za, zb = np.zeros(9), np.zeros(9)
+                mj.mju_quat2Mat(za, qa)
+                mj.mju_quat2Mat(zb, qb)
+                za, zb = za.reshape(3, 3)[:, 2], zb.reshape(3, 3)[:, 2]
+                a0, a1, b0, b1 = ca - ha * za, ca + ha * za, cb - hb * zb, cb + hb * zb
+                pa, pb, s_, t_ = segment_segment(a0, a1, b0, b1)
+                dist = np.linalg.norm(pa - pb)
+                pen = ra + rb - dist
+                if 0.002 < pen < 0.025 and abs(za @ zb) < 0.9 and _clip_only_gap(a0, a1, b0, b1) > 0.02:
+                    break
+            else:
+                raise RuntimeError("capcap_states: no clipped configuration found")
+            for g, c, q in ((ga, ca, qa), (gb, cb, qb)):
+                adr = m.jnt_qposadr[m.body_jntadr[m.geom_bodyid[g]]]
+                d.qpos[adr:adr + 3] = c
+                d.qpos[adr + 3:adr + 7] = q
+        d.qvel[:] = rng.normal(size=m.nv) * rng.choice([0.0, 0.3, 1.0])
+        d.qacc_warmstart[:] = rng.normal(size=m.nv)
+        d.time = float(rng.uniform(0, 3))
+        out.append(state_dict(m, d))
+    return out
+
+
+# ------------------------------------------------------------------------------------------------------------------
 def random_state(R, rng, m, d, scale=1.0, vel=1.0):
     """Fill the wheel's MjData with a random state / control / applied forces (in place)."""
     mj = R.mujoco
